@@ -123,7 +123,7 @@ def main(tier, replay=None):
     if replay:
         return do_replay(replay, ucg, base, gd)
     cfgs = ["c13_q1", "c13_q2"] if tier == "quick" else ["c13_q1", "c13_q2", "c13_t1"]
-    budget = 700 if tier == "quick" else 9000
+    budget = 700 if tier == "quick" else 6000
     opendevs = B.open_deviations() & DEVS
     states = trans = 0
     cmds = []
@@ -151,12 +151,7 @@ def main(tier, replay=None):
             cases.setdefault(B.case_key(c[0]), c[0])
             if c[1] is not None:
                 devcases.setdefault(B.case_key(c[0]), []).append(c[1])
-    keys = sorted(cases)
-    rng = random.Random(sd)
-    rng.shuffle(keys)
-    # the replay sample: seeded, but every (file count, order length) class is represented
-    keys.sort(key=lambda k: 0 if nontrivial(cases[k]) else 1)
-    chosen = keys[:budget]
+    chosen = B.choose(cases, lambda k: nontrivial(cases[k]), budget, random.Random(sd))
     jobs = [(i, cases[k], devcases.get(k), ucg, base, sd) for i, k in enumerate(chosen)]
     cnt = {"verdict Pass": 0, "verdict Fail": 0, "build error": 0, "malformed assertion": 0, "error after assertions": 0,
            "file tested twice": 0, "three files": 0}
@@ -210,6 +205,8 @@ def main(tier, replay=None):
             states += info.get("states", 0)
     code = rep.finish()
     shutil.rmtree(base, ignore_errors=True)
+    if code == 0:
+        shutil.rmtree(gd, ignore_errors=True)      # kept after a violation: the trace files are evidence
     if not samples:
         samples = [r["text"] for r in results[:3]]
     C.write_evidence(PID, tier, "model_checking", {
